@@ -5,7 +5,7 @@ import os
 import random
 import subprocess
 
-from . import common, pysim, snap
+from . import common, piperun, pysim, snap
 
 # property -> list of (stage, column)
 COLUMNS = {
@@ -128,7 +128,14 @@ def check(pid, tier, build, props):
         problems.append("only %d instances reached the checker" % checked)
     if kerr:
         problems.append("in-kernel re-evaluation failed: " + kerr)
+    pr = piperun.get(tier, seed)
+    tie_ok = pr["mismatch_count"] == 0 and not pr["harness_errors"] and pr["agree"] > 0
     coverage = {
+        "pipeline_model_tie": dict(piperun.summary(pr), holds=tie_ok,
+                                   role="%s_pipeline_model_le4 is a theorem about Model/Pipe.v; it speaks about the "
+                                        "implementation only while this tie holds. The decision of this check does "
+                                        "not rest on it (the validators run on the implementation's own output); a "
+                                        "broken tie is raised by the check of C02." % pid),
         "programs": checked,
         "disagreements_checked": disagreements,
         "samples": sn["samples"][:5] + [{"rows": r.splitlines()[:12]} for r in sn["sample_rows"][:1]],
@@ -141,8 +148,8 @@ def check(pid, tier, build, props):
                                        for s, c in cols},
         "stage_exceptions_seen": len(sn["exceptions"]),
         "kernel_reevaluated_instances": kok,
-        "obligations": len(props["theorems"]) + kn,
-        "discharged": (len(props["theorems"]) if props["ok"] else 0) + kok,
+        "obligations": len(props["theorems"]) + kn + 1,
+        "discharged": (len(props["theorems"]) if props["ok"] else 0) + kok + (1 if tie_ok else 0),
         "theorems": props["theorems"],
         "checker_cmd": "bin/build.sh && build/extract/vchk < exported instances; coqc Props/%s.v" % pid,
         "trusted_base": ["Coq 8.16.1 kernel (vm_compute used, no native_compute)",
